@@ -134,6 +134,68 @@ def equal_case(k):
     return h
 
 
+def _first_item(kind, blk):
+    if kind in ("data3d", "force3d", "emg", "events", "optical"):
+        return list(blk)[0]
+    if kind == "fpdata":
+        return list(blk.platforms)[0]
+    if kind == "fpcal":
+        return blk.platforms[0][1]
+    if kind == "calib":
+        return list(blk.cam_data)[0]
+    raise ValueError(kind)
+
+
+def history_case(k, what):
+    """compare -> edit one of the two blocks in place -> compare again: equality must follow
+    the current content (nothing memoised from the first comparison)."""
+    def h(I):
+        kind, sh = _kind(k), SHAPES[k]
+        a = B.build(I, kind, sh, "a")
+        b = B.build(I, kind, sh, "a")  # identical content, separate objects
+        _header_non_nan(I, kind, a)
+        r, e = _eq(I, a, b)
+        I.prove(f"C14.{k}.equal_to_identical_copy", e is None and r, f"{type(e).__name__ if e else ''}")
+        r, e = _eq(I, b, a)
+        I.prove(f"C14.{k}.equal_to_identical_copy", e is None and r, "other direction")
+        it = _first_item(kind, b)
+        if what == "label":
+            attr = "camera_name" if kind == "optical" else "label"
+            old = getattr(it, attr)
+            new = I.label("m", 1)
+            I.assume(I.not_(new == old))
+            setattr(it, attr, new)
+        else:
+            arr, pos, w = {"data3d": (lambda: (it.data, (0, 0), 32)), "emg": (lambda: (it.data, (0,), 32)), "force3d": (lambda: (it.force, (0, 0), 32)),
+                           "fpdata": (lambda: (it.force, (0, 0), 32)), "events": (lambda: (it.values, (0,), 32)), "fpcal": (lambda: (it.size, (0,), 32)),
+                           "calib": (lambda: (it.focus, (0,), 64))}[kind]()
+            x = arr[pos]
+            for nn in B.isnan_list(I, I.np.asarray(x).reshape(1)):
+                I.assume(I.not_(nn))
+            if kind in ("data3d", "emg"):
+                # the edited frame is a present one
+                row = arr[0]
+                for nn in B.isnan_list(I, row if getattr(row, "shape", ()) else I.np.asarray(row).reshape(1)):
+                    I.assume(I.not_(nn))
+            mv = I.farray("m", (1,), w)  # a finite new value (an infinite sample is stored as a gap)
+            B.assume_no_nan(I, mv)
+            I.assume(I.not_(B.isinf_list(I, mv)[0]))
+            m = mv[0]
+            I.assume(I.far(x, m))
+            arr[pos] = m
+        I.goal("edited")
+        r, e = _eq(I, a, b)
+        I.observe("after", [r if e is None else type(e).__name__])
+        I.prove(f"C14.{k}.differs_after_in_place_edit.{what}", e is None and I.truth(r) is False, f"{type(e).__name__ if e else ''}")
+        r, e = _eq(I, b, a)
+        I.prove(f"C14.{k}.differs_after_in_place_edit.{what}.symmetric", e is None and I.truth(r) is False, f"{type(e).__name__ if e else ''}")
+        data = B.encode(I, b)
+        d, _ = B.decode(I, kind, data, b.format.value)
+        r, e = _eq(I, b, d)
+        I.prove(f"C14.{k}.edited_block_equal_to_its_decoded_encoding", e is None and r, f"{type(e).__name__ if e else ''}")
+    return h
+
+
 def _mutate(I, site):
     """-> (ov dict, shape patch dict)"""
     typ, name = site[1], site[2]
@@ -278,6 +340,13 @@ def instances(tier):
         if k in COUNT_KEY or k == "events":
             out.append(Instance(f"{k}.count.plus", count_case(k, +1), goals=["done"], cost=64 if gapkind else 2))
             out.append(Instance(f"{k}.count.minus", count_case(k, -1), goals=["done"], cost=16 if gapkind else 2))
+    for k in SHAPES:
+        kind = _kind(k)
+        if kind == "data2d" or k == "calib_bts":
+            continue
+        gapkind = k in ("data3d", "emg", "force3d", "fpdata")
+        for what in (["label"] if kind in ("data3d", "emg", "force3d", "fpcal", "optical", "events") else []) + (["sample"] if kind != "optical" else []):
+            out.append(Instance(f"{k}.history.{what}", history_case(k, what), goals=["edited"], cost=64 if gapkind else 4))
     from . import e2e
     for v in ("same", "slot_count", "version", "fewer_blocks", "value", "label", "order"):
         out.append(Instance(f"file.{v}", e2e.c14_file_case(v), goals=["done"], cost=40))
